@@ -38,7 +38,7 @@ func init() {
 	register(&Prop{
 		ID:    "C10",
 		Level: "fault_enumeration",
-		Rule: "case = (scenario of client API calls, fault kind, byte offset of the fault in the server->client or client->server stream, schedule). " +
+		Rule: "case = (scenario of client API calls, fault kind, byte offset of the fault in the server->client or client->server stream (1 sampled fault in 4 strictly inside a continuation request line), schedule). " +
 			"Quick: seeded sampling of scenarios, kinds and offsets. Thorough: for each of the corpus scenarios and each fault kind, every offset 0.." +
 			fmt.Sprint(c10SweepMax) + " (mod transcript length+1) is executed, plus seeded free scenarios. A case is non-trivial when at least one command was issued after the greeting; " +
 			"distinct = distinct event-log hashes (scheduler decisions + network events).",
